@@ -1109,7 +1109,9 @@ class Walker:
                                 root = root[1]
                             if root == args[0]:
                                 val = ("vec", hvv[2])
-                if rr is not None and short(rr) in ("Option::map", "Option::and_then", "Option::ok_or_else", "Option::unwrap_or_else") and len(args) == 2 and args[1][0] == "closure" and self._desugar_option_adaptor(short(rr), args, t, st, path, visited, bb):
+                if rr is not None and short(rr) in ("Option::map", "Option::and_then", "Option::ok_or_else", "Option::unwrap_or_else", "Option::is_some_and", "Option::is_none_or") and len(args) == 2 and args[1][0] == "closure" and self._desugar_option_adaptor(short(rr), args, t, st, path, visited, bb):
+                    return
+                if rr is not None and short(rr) == "Option::map_or" and len(args) == 3 and args[2][0] == "closure" and self._desugar_option_adaptor("Option::map_or", [args[0], args[2], args[1]], t, st, path, visited, bb):
                     return
                 if rr is not None and rr in ("core::bool::<impl bool>::then", "std::bool::<impl bool>::then", "core::bool::<impl bool>::then_some", "std::bool::<impl bool>::then_some", "bool::<impl bool>::then", "bool::<impl bool>::then_some") and len(args) == 2 and t["t"] is not None and self._desugar_bool_then(rr.endswith("then_some"), args, t, st, path, visited, bb):
                     return
@@ -1234,6 +1236,13 @@ class Walker:
             return False
         atom = ("variant", x)
         known = st["known"].get(atom)
+        static = None
+        if x[0] == "agg" and x[2] in ("Some", "None"):
+            static = ("variant", x[2])
+        elif x[0] == "enumc" and x[2] in ("Some", "None"):
+            static = ("variant", x[2])
+        if static is not None:
+            known = static
         branches = []
         closure_side, plain_side = (("variant", "None"), ("variant", "Some")) if on_none else (("variant", "Some"), ("variant", "None"))
         if known in (None, plain_side):
@@ -1247,7 +1256,7 @@ class Walker:
             p2.guards = list(path.guards)
             p2.effects = list(path.effects)
             p2.blocks = list(path.blocks)
-            if known is None:
+            if known is None and static is None:
                 st2["known"][atom] = o
                 p2.guards.append((atom, o))
             if q is None:
@@ -1255,6 +1264,12 @@ class Walker:
                     val = ("agg", "std::result::Result", "Ok", ("0",), (payload,))
                 elif name == "Option::unwrap_or_else":
                     val = payload
+                elif name == "Option::is_some_and":
+                    val = FALSE
+                elif name == "Option::is_none_or":
+                    val = TRUE
+                elif name == "Option::map_or":
+                    val = args[2]
                 else:
                     val = ("enumc", "std::option::Option", "None")
             else:
@@ -1266,7 +1281,7 @@ class Walker:
                         p2.guards.append((a, oo))
                 else:
                     p2.effects.extend(q.effects)
-                    if name in ("Option::and_then", "Option::unwrap_or_else"):
+                    if name in ("Option::and_then", "Option::unwrap_or_else", "Option::is_some_and", "Option::is_none_or", "Option::map_or"):
                         val = q.ret
                     elif name == "Option::ok_or_else":
                         val = ("agg", "std::result::Result", "Err", ("0",), (q.ret,))
